@@ -150,3 +150,7 @@ mod tests {
         assert_eq!(build_cumulative_frequencies(&frequencies), expected);
     }
 }
+
+#[cfg(kani)]
+#[path = "/verif/harness/cram/rans_4x8_decode_order_0.rs"]
+mod verif_kani;
